@@ -117,9 +117,11 @@ func (w *Worker) initGlobals() (err error) {
 }
 
 func (w *Worker) reinit() {
+	ex, p := w.ex, w.p
 	if err := w.initGlobals(); err != nil {
 		panic(err)
 	}
+	w.ex, w.p = ex, p
 }
 
 // snapshotGlobals serialises the state reachable from the package-level
@@ -127,16 +129,20 @@ func (w *Worker) reinit() {
 func (w *Worker) snapshotGlobals() string {
 	var names []string
 	byName := map[string]*ssa.Global{}
-	for g := range w.globals {
-		if g.Pkg == nil || !strings.HasPrefix(g.Pkg.Pkg.Path(), modPath) {
+	for path, pkg := range w.sh.pkgs {
+		if !strings.HasPrefix(path, modPath) {
 			continue
 		}
-		if strings.HasPrefix(g.Name(), "init$") {
-			continue
+		for _, mem := range pkg.Members {
+			g, ok := mem.(*ssa.Global)
+			if !ok || strings.HasPrefix(g.Name(), "init$") || strings.HasPrefix(g.Name(), "verif") {
+				continue
+			}
+			w.global(g) // force creation: variables not touched yet hold their zero value
+			n := path + "." + g.Name()
+			names = append(names, n)
+			byName[n] = g
 		}
-		n := g.Pkg.Pkg.Path() + "." + g.Name()
-		names = append(names, n)
-		byName[n] = g
 	}
 	sort.Strings(names)
 	var sb strings.Builder
